@@ -75,6 +75,8 @@ struct Src
     uint32_t ifId[3];
     uint16_t vendorId[3];
     uint8_t flags[3];
+    uint16_t pktDev[3];   // the packets' own device / stream ids (e.g. left from decoding): the encoder's ids must win
+    uint8_t pktStream[3];
     uint8_t version;
     uint16_t deviceId;
     uint8_t streamId;
@@ -95,6 +97,8 @@ static void drawSrc(Src& s)
         s.ifId[i] = vp_u32();
         s.vendorId[i] = vp_u16();
         s.flags[i] = vp_u8();
+        s.pktDev[i] = vp_u16();
+        s.pktStream[i] = vp_u8();
     }
     s.version = vp_u8();
     s.deviceId = vp_u16();
@@ -112,6 +116,8 @@ static Packet* mkPacket(const Src& s, unsigned i)
     p->setInterfaceId(s.ifId[i]);
     p->setVendorId(s.vendorId[i]);
     p->setCommonFlags(s.flags[i]);
+    p->setDeviceId(s.pktDev[i]);
+    p->setStreamId(s.pktStream[i]);
     return p;
 }
 
